@@ -29,12 +29,18 @@ ASSUMPTIONS = ["footprint of a structural op = the whole trees of its target and
 PROFILES = {
     "c11-copies": Profile("c11-copies", {
         "new_doc": 3, "new_sec": 10, "new_prop": 10, "create_section": 4, "create_property": 5,
-        "clone": 16, "clone_twice": 4, "export_leaf": 8, "template_clone": 5, "save": 4, "get_values": 8, "alias_mutate": 10, "hold_values": 4,
+        "clone": 16, "clone_twice": 4, "linked_copy": 6, "export_leaf": 8, "template_clone": 5, "save": 4, "get_values": 8, "alias_mutate": 10, "hold_values": 4,
         "set_values": 6, "v_item_mutate": 6, "v_append": 4, "v_extend": 3, "v_setitem": 4, "v_remove": 2, "set_dtype": 2,
         "rename": 5, "set_attr": 4, "append": 5, "insert": 2, "remove": 3, "set_parent": 3,
         "setitem": 2, "set_card": 4, "merge": 4, "set_link": 2, "clean": 1, "new_id": 1,
     }, fault_share=0.15, dtypes=["string", "int", "float", "2-tuple", "3-tuple", "date", "boolean"]),
 }
+# a second profile in which resolved links and their copies dominate (a third of the runs)
+PROFILES["c11-linked"] = Profile("c11-linked", {
+    "linked_copy": 40, "clone": 6, "clean": 6, "finalize": 2, "set_values": 4, "rename": 3,
+    "set_attr": 3, "create_property": 3, "new_sec": 2, "export_leaf": 3, "clone_twice": 2,
+}, fault_share=0.1, length=(6, 16))
+PROFILES["c11-copies-2"] = PROFILES["c11-copies"]      # keeps the general profile at two thirds
 MONITORS = [mon_copy]
 
 # ops that edit their target and create no object (and draw no uuid): leaving them out of a replay
